@@ -172,7 +172,10 @@ pub struct RelExp {
 pub enum ItemExp { Entry(Vec<RelExp>), Substvar(String) }
 
 // (two names that differ where '+' and '-' sort differently under byte order and under "split at dashes" orders)
-const NAMES: &[&str] = &["libfoo2.0-dev", "a", "g++", "x~y", "python3-dulwich", "c-ares", "zlib1g", "c+tools", "a-b", "a1", "lib9", "lib10", "0ad", "7zip"];   // (digit-leading names)   // (lib10 < lib9 in byte order)
+const NAMES: &[&str] = &["libfoo2.0-dev", "a", "g++", "x~y", "python3-dulwich", "c-ares", "zlib1g", "c+tools", "a-b", "a1", "lib9", "lib10", "0ad", "7zip", "libX11-dev", "R-base"];   // (upper-case letters: lexer-valid, compared exactly)
+// names of real build dependencies (packaging helpers next to ordinary packages): every third concretisation draws from here
+const REAL_NAMES: &[&str] = &["debhelper-compat", "cmake", "R-base", "dh-python", "libX11-dev", "autoconf", "pkgconf", "cdbs", "bison", "dpkg-dev", "debhelper", "python3-all", "dh-sequence-python3", "build-essential", "dpkg-build-api", "libc6-dev", "zlib1g-dev", "perl", "dh-exec"];
+const _UNUSED: &[&str] = &[];   // (digit-leading names)   // (lib10 < lib9 in byte order)
 const AQS: &[&str] = &["any", "native", "amd64"];
 /// two version chains in increasing Debian order (Policy 5.6.12)
 // (ranks 0..5 are the ordered chains of C12; the entries after them - hyphens inside the upstream part - are used by the generated fields only)
@@ -201,7 +204,7 @@ pub fn concretise_field(case: &Value, map: usize) -> (String, Vec<String>) {
             "NEWLINE" => "\n".into(),
             "WHITESPACE" => { ws_n += 1; match map { 0 => " ".to_string(), 1 => "\t".into(), _ => [" ", "  ", "\t", " \t"][ws_n % 4].to_string() } }
             "IDENT" => match role {
-                "name" => NAMES[(e as usize * 2 + r as usize + map) % NAMES.len()].to_string(),
+                "name" => if map % 3 == 2 { REAL_NAMES[(e as usize * 2 + r as usize + map / 3) % REAL_NAMES.len()].to_string() } else { NAMES[(e as usize * 2 + r as usize + map) % NAMES.len()].to_string() },
                 "aq" => AQS[(e as usize + r as usize + map) % AQS.len()].to_string(),
                 "ver" => {
                     let n = ver_seen.entry((e, r)).or_insert(0);
